@@ -187,7 +187,7 @@ fn run_case(seed: u64, logpath: &str) -> Result<String, String> {
             let t0 = Instant::now();
             loop {
                 if wake_state(logpath).0 > wakes_before || handle.is_finished() { break; }
-                if t0.elapsed() > StdDuration::from_secs(3) { hang = 1; break; }
+                if t0.elapsed() > StdDuration::from_secs(20) { hang = 1; break; }
                 thread::sleep(StdDuration::from_micros(200));
             }
             if hang != 0 { break; }
@@ -199,7 +199,7 @@ fn run_case(seed: u64, logpath: &str) -> Result<String, String> {
     let _ = control.apply_action(ControlAction::Continue);
     let t0 = Instant::now();
     while !handle.is_finished() {
-        if t0.elapsed() > StdDuration::from_secs(10) { hang = if hang == 0 { 2 } else { hang }; break; }
+        if t0.elapsed() > StdDuration::from_secs(30) { hang = if hang == 0 { 2 } else { hang }; break; }
         thread::sleep(StdDuration::from_millis(1));
     }
     while let Ok(_s) = rx.try_recv() { stops += 1; }
